@@ -801,9 +801,10 @@ pub fn session(lines: &[String], c: Option<&Ctx>, emit: &mut dyn FnMut(String)) 
                     }
                 }
                 if let Some(d) = which.and_then(|off| die_by_off.get(&off)) {
-                    let kind = match (&d.loc, cur_pc) {
+                    // the pc of the location-list selection: the frame's pc, for outer frames an address inside the call instruction
+                    let kind = match (&d.loc, cur_pc.map(|g| if cur_k > 0 { g.saturating_sub(1) } else { g })) {
                         (Some(LocAttr::Expr(e)), _) => e[..1].to_string(),
-                        (Some(LocAttr::List(es)), Some(g)) => es.iter().find(|(a, b, _)| *a <= g && g <= *b).map(|(_, _, e)| e[..1].to_string()).unwrap_or("none".into()),
+                        (Some(LocAttr::List(es)), Some(g)) => es.iter().find(|(a, b, _)| *a <= g && g < *b).map(|(_, _, e)| e[..1].to_string()).unwrap_or("none".into()),
                         _ => "noloc".into(),
                     };
                     let kind = match kind.as_str() { "f" => "fbreg", "r" => "register", "b" => "breg-memory", "v" => "breg-value", "c" => "constant", "u" => "other-expression(echoed)", k => k }.to_string();
